@@ -97,6 +97,9 @@ func perform(st *drpcstream.Stream, op refstream.Op, call int, r *callRes) {
 		var in []byte
 		r.err = st.MsgRecv(&in, enc.Bytes{})
 		r.data = in
+	case recvBad:
+		var in []byte
+		r.err = st.MsgRecv(&in, enc.FailUnmarshal{})
 	case refstream.CloseSend:
 		r.err = st.CloseSend()
 	case refstream.Close:
@@ -137,6 +140,17 @@ func perform(st *drpcstream.Stream, op refstream.Op, call int, r *callRes) {
 	r.returned = true
 }
 
+// recvBad is MsgRecv through a decoder that rejects the message. For the state machine it is a
+// receive like any other (the message is consumed); only the call's own result differs.
+const recvBad refstream.Op = "MsgRecv(decoder fails)"
+
+func modelOp(op refstream.Op) refstream.Op {
+	if op == recvBad {
+		return refstream.Recv
+	}
+	return op
+}
+
 type run struct {
 	fails []string
 	trace []string
@@ -154,6 +168,11 @@ func enabledOps(m *refstream.Model) []refstream.Op {
 
 // scenario: fixed prefix, then `free` steps chosen by the explorer among the enabled symbols.
 func scenario(mf bool, prefix []refstream.Op, free int, label string) *mc.Scenario {
+	return scenarioOver(nil, mf, prefix, free, label)
+}
+
+// scenarioOver is scenario with the free steps drawn from the given symbols (nil = the full alphabet).
+func scenarioOver(alphabet []refstream.Op, mf bool, prefix []refstream.Op, free int, label string) *mc.Scenario {
 	name := fmt.Sprintf("stream[mf=%v %s +%d free steps]", mf, label, free)
 	body := func() {
 		rn := &run{}
@@ -176,7 +195,7 @@ func scenario(mf bool, prefix []refstream.Op, free int, label string) *mc.Scenar
 			for i, c := range calls {
 				wasReturned[i] = c.returned
 			}
-			pred := m.Step(op)
+			pred := m.Step(modelOp(op))
 			vs.Go(string(op), func() { perform(st, op, call, r) })
 			sched.Quiesce()
 			rn.trace = append(rn.trace, string(op))
@@ -195,7 +214,12 @@ func scenario(mf bool, prefix []refstream.Op, free int, label string) *mc.Scenar
 					if !ok {
 						return fail("call #%d %s returned (err=%v flag=%v) but the state machine keeps it in flight", i, c.op, c.err, c.flag)
 					}
-					if !classOK(x.Class, c) {
+					if c.op == recvBad && x.Data {
+						// a message was handed to this receive: its decoder rejects it
+						if c.err != enc.ErrUndecodable {
+							return fail("call #%d %s returned err=%v, want the decoder's error", i, c.op, c.err)
+						}
+					} else if !classOK(x.Class, c) {
 						return fail("call #%d %s returned err=%v flag=%v, the state machine says %s", i, c.op, c.err, c.flag, x.Class)
 					}
 					if (c.op == refstream.Recv || c.op == refstream.RawRecv) && x.Data {
@@ -260,7 +284,7 @@ func scenario(mf bool, prefix []refstream.Op, free int, label string) *mc.Scenar
 			return true
 		}
 		for _, op := range prefix {
-			if !m.Enabled(op) {
+			if !m.Enabled(modelOp(op)) {
 				rn.fails = append(rn.fails, "HARNESS prefix op disabled")
 				return
 			}
@@ -270,6 +294,14 @@ func scenario(mf bool, prefix []refstream.Op, free int, label string) *mc.Scenar
 		}
 		for i := 0; i < free; i++ {
 			ops := enabledOps(m)
+			if alphabet != nil {
+				ops = nil
+				for _, op := range alphabet {
+					if m.Enabled(modelOp(op)) {
+						ops = append(ops, op)
+					}
+				}
+			}
 			k := sched.Choose(len(ops), "op")
 			if !step(ops[k]) {
 				return
@@ -777,6 +809,9 @@ func plans(tier string) []mc.Plan {
 		}
 	}
 	ps = append(ps, mc.Plan{Scen: parkedScenario(), Bounds: []int{0}, Split: true})
+	// a receive whose decoder rejects the message: the message is consumed all the same
+	bad := []refstream.Op{recvBad, refstream.Recv, refstream.PMsg, refstream.Send, refstream.CloseSend, refstream.Close, refstream.SendError, refstream.Cancel, refstream.PCloseSend, refstream.PClose, refstream.PError}
+	ps = append(ps, mc.Plan{Scen: scenarioOver(bad, false, nil, 4, "all sequences with a failing decoder"), Bounds: []int{0}, Split: true})
 	ps = append(ps, mc.Plan{Scen: flushParkedScenario(), Bounds: []int{0}})
 	if tier == "thorough" {
 		// one scheduling deviation inside every sequence of length 3
